@@ -383,9 +383,12 @@ def build_evidence(prop, tier, base_seed, spec, plan, results, wall, confirmed, 
     steps = 0
     events = 0
     samples = []
+    branches = {}
     for r in results:
         steps += r.get('steps', 0)
         events += r.get('events', 0)
+        if r.get('branches'):
+            branches[r['profile']] = branches.get(r['profile'], 0) + r['branches']
         for k, v in (r.get('probes') or {}).items():
             probes[k] = probes.get(k, 0) + v
         for k, v in (r.get('faults') or {}).items():
@@ -423,6 +426,7 @@ def build_evidence(prop, tier, base_seed, spec, plan, results, wall, confirmed, 
             'simulated_ticks': events,
             'runs_per_hour': int(n / wall * 3600) if wall > 0 else 0,
             'fault_kinds_fired': faults,
+            'what_if_branches': branches,
             'probes': probes,
             'known_findings_reobserved': {k: len(v) for k, v in known_hits.items()},
             'truncated_by_budget': truncated,
